@@ -46,15 +46,47 @@ func init() {
 		{ID: "E1.endpoint.relative", Fn: "op.(*Endpoint).Relative", P: []string{"e"}, Kind: "ret any", Pat: "ret(op.relativeEndpoint($e.path))", Max: 1, Req: []string{"nonnil($e)"}},
 		{ID: "E8.endpoint.absolute.same-path", Fn: "op.absoluteEndpoint", P: []string{"host", "endpoint"}, Kind: "ret any", Pat: `ret(strings.TrimSuffix($host, "/") + op.relativeEndpoint($endpoint))`, Max: 1},
 		// T1/T3/T6: advertise-iff-supported lists (the iff part is the table rule below)
-		{ID: "E1.advertise.refresh", Fn: "op.GrantTypes", P: []string{"c"}, Kind: "store", Pat: "store($g, append($g, oidc.GrantTypeRefreshToken))", Max: 1, Req: []string{"true($c.GrantTypeRefreshTokenSupported())"}},
-		{ID: "E1.advertise.cc", Fn: "op.GrantTypes", P: []string{"c"}, Kind: "store", Pat: "store($g, append($g, oidc.GrantTypeClientCredentials))", Max: 1, Req: []string{"true($c.GrantTypeClientCredentialsSupported())"}},
-		{ID: "E1.advertise.te", Fn: "op.GrantTypes", P: []string{"c"}, Kind: "store", Pat: "store($g, append($g, oidc.GrantTypeTokenExchange))", Max: 1, Req: []string{"true($c.GrantTypeTokenExchangeSupported())"}},
-		{ID: "E1.advertise.jwt", Fn: "op.GrantTypes", P: []string{"c"}, Kind: "store", Pat: "store($g, append($g, oidc.GrantTypeBearer))", Max: 1, Req: []string{"true($c.GrantTypeJWTAuthorizationSupported())"}},
-		{ID: "E1.advertise.device", Fn: "op.GrantTypes", P: []string{"c"}, Kind: "store", Pat: "store($g, append($g, oidc.GrantTypeDeviceCode))", Max: 1, Req: []string{"true($c.GrantTypeDeviceCodeSupported())"}},
-		{ID: "E1.advertise.s256", Fn: "op.CodeChallengeMethods", P: []string{"c"}, Kind: "store", Pat: "store($m, append($m, oidc.CodeChallengeMethodS256))", Max: 1, Req: []string{"true($c.CodeMethodS256Supported())"}},
+		{ID: "E1.advertise.refresh", Fn: "op.GrantTypes", P: []string{"c"}, Kind: "call", Pat: "append($g, oidc.GrantTypeRefreshToken)", Max: 1, Req: []string{"true($c.GrantTypeRefreshTokenSupported())"}},
+		{ID: "E1.advertise.cc", Fn: "op.GrantTypes", P: []string{"c"}, Kind: "call", Pat: "append($g, oidc.GrantTypeClientCredentials)", Max: 1, Req: []string{"true($c.GrantTypeClientCredentialsSupported())"}},
+		{ID: "E1.advertise.te", Fn: "op.GrantTypes", P: []string{"c"}, Kind: "call", Pat: "append($g, oidc.GrantTypeTokenExchange)", Max: 1, Req: []string{"true($c.GrantTypeTokenExchangeSupported())"}},
+		{ID: "E1.advertise.jwt", Fn: "op.GrantTypes", P: []string{"c"}, Kind: "call", Pat: "append($g, oidc.GrantTypeBearer)", Max: 1, Req: []string{"true($c.GrantTypeJWTAuthorizationSupported())"}},
+		{ID: "E1.advertise.device", Fn: "op.GrantTypes", P: []string{"c"}, Kind: "call", Pat: "append($g, oidc.GrantTypeDeviceCode)", Max: 1, Req: []string{"true($c.GrantTypeDeviceCodeSupported())"}},
+		{ID: "E1.advertise.s256", Fn: "op.CodeChallengeMethods", P: []string{"c"}, Kind: "call", Pat: "append($m, oidc.CodeChallengeMethodS256)", Max: 1, Req: []string{"true($c.CodeMethodS256Supported())"}},
 		{ID: "E1.advertise.s256.only", Fn: "op.CodeChallengeMethods", Kind: "call", Pat: "append(__)", Max: 1},
-		{ID: "E1.advertise.token-auth.post", Fn: "op.AuthMethodsTokenEndpoint", P: []string{"c"}, Kind: "store", Pat: "store($m, append($m, oidc.AuthMethodPost))", Max: 1, Req: []string{"true($c.AuthMethodPostSupported())"}},
-		{ID: "E1.advertise.token-auth.jwt", Fn: "op.AuthMethodsTokenEndpoint", P: []string{"c"}, Kind: "store", Pat: "store($m, append($m, oidc.AuthMethodPrivateKeyJWT))", Max: 1, Req: []string{"true($c.AuthMethodPrivateKeyJWTSupported())"}},
+		{ID: "E1.advertise.token-auth.post", Fn: "op.AuthMethodsTokenEndpoint", P: []string{"c"}, Kind: "call", Pat: "append($m, oidc.AuthMethodPost)", Max: 1, Req: []string{"true($c.AuthMethodPostSupported())"}},
+		{ID: "E1.advertise.token-auth.jwt", Fn: "op.AuthMethodsTokenEndpoint", P: []string{"c"}, Kind: "call", Pat: "append($m, oidc.AuthMethodPrivateKeyJWT)", Max: 1, Req: []string{"true($c.AuthMethodPrivateKeyJWTSupported())"}},
+		{ID: "E1.advertise.iff.refresh", Fn: "op.GrantTypes", P: []string{"c"}, Kind: "ret any", Why: "advertised whenever the capability holds (no extra condition on the advertising side)",
+			Req: []string{"false($c.GrantTypeRefreshTokenSupported()) || called(append(_, oidc.GrantTypeRefreshToken))"}},
+		{ID: "E1.advertise.iff.cc", Fn: "op.GrantTypes", P: []string{"c"}, Kind: "ret any", Why: "advertised whenever the capability holds (no extra condition on the advertising side)",
+			Req: []string{"false($c.GrantTypeClientCredentialsSupported()) || called(append(_, oidc.GrantTypeClientCredentials))"}},
+		{ID: "E1.advertise.iff.te", Fn: "op.GrantTypes", P: []string{"c"}, Kind: "ret any", Why: "advertised whenever the capability holds (no extra condition on the advertising side)",
+			Req: []string{"false($c.GrantTypeTokenExchangeSupported()) || called(append(_, oidc.GrantTypeTokenExchange))"}},
+		{ID: "E1.advertise.iff.jwt", Fn: "op.GrantTypes", P: []string{"c"}, Kind: "ret any", Why: "advertised whenever the capability holds (no extra condition on the advertising side)",
+			Req: []string{"false($c.GrantTypeJWTAuthorizationSupported()) || called(append(_, oidc.GrantTypeBearer))"}},
+		{ID: "E1.advertise.iff.device", Fn: "op.GrantTypes", P: []string{"c"}, Kind: "ret any", Why: "advertised whenever the capability holds (no extra condition on the advertising side)",
+			Req: []string{"false($c.GrantTypeDeviceCodeSupported()) || called(append(_, oidc.GrantTypeDeviceCode))"}},
+		{ID: "E1.advertise.iff.s256", Fn: "op.CodeChallengeMethods", P: []string{"c"}, Kind: "ret any", Why: "advertised whenever the capability holds (no extra condition on the advertising side)",
+			Req: []string{"false($c.CodeMethodS256Supported()) || called(append(_, oidc.CodeChallengeMethodS256))"}},
+		{ID: "E1.advertise.iff.token-auth.post", Fn: "op.AuthMethodsTokenEndpoint", P: []string{"c"}, Kind: "ret any", Why: "advertised whenever the capability holds (no extra condition on the advertising side)",
+			Req: []string{"false($c.AuthMethodPostSupported()) || called(append(_, oidc.AuthMethodPost))"}},
+		{ID: "E1.advertise.iff.token-auth.jwt", Fn: "op.AuthMethodsTokenEndpoint", P: []string{"c"}, Kind: "ret any", Why: "advertised whenever the capability holds (no extra condition on the advertising side)",
+			Req: []string{"false($c.AuthMethodPrivateKeyJWTSupported()) || called(append(_, oidc.AuthMethodPrivateKeyJWT))"}},
+		{ID: "E1.advertise.iff.revocation-auth.post", Fn: "op.AuthMethodsRevocationEndpoint", P: []string{"c"}, Kind: "ret any", Why: "advertised whenever the capability holds (no extra condition on the advertising side)",
+			Req: []string{"false($c.AuthMethodPostSupported()) || called(append(_, oidc.AuthMethodPost))"}},
+		{ID: "E1.advertise.iff.revocation-auth.jwt", Fn: "op.AuthMethodsRevocationEndpoint", P: []string{"c"}, Kind: "ret any", Why: "advertised whenever the capability holds (no extra condition on the advertising side)",
+			Req: []string{"false($c.AuthMethodPrivateKeyJWTSupported()) || called(append(_, oidc.AuthMethodPrivateKeyJWT))"}},
+		{ID: "E1.advertise.revocation-auth.post", Fn: "op.AuthMethodsRevocationEndpoint", P: []string{"c"}, Kind: "call", Pat: "append($m, oidc.AuthMethodPost)", Max: 1, Req: []string{"true($c.AuthMethodPostSupported())"}},
+		{ID: "E1.advertise.revocation-auth.jwt", Fn: "op.AuthMethodsRevocationEndpoint", P: []string{"c"}, Kind: "call", Pat: "append($m, oidc.AuthMethodPrivateKeyJWT)", Max: 1, Req: []string{"true($c.AuthMethodPrivateKeyJWTSupported())"}},
+		{ID: "E1.dispatch.iff.refresh", Fn: "op.Exchange", P: []string{"w", "r", "exchanger"}, Kind: "ret any", MutOK: []string{"r"}, Why: "served whenever advertised: the dispatch guard is exactly the advertised capability",
+			Req: []string{"neq($r.FormValue(\"grant_type\"), oidc.GrantTypeRefreshToken) || false($exchanger.GrantTypeRefreshTokenSupported()) || called(op.RefreshTokenExchange(__))"}},
+		{ID: "E1.dispatch.iff.cc", Fn: "op.Exchange", P: []string{"w", "r", "exchanger"}, Kind: "ret any", MutOK: []string{"r"}, Why: "served whenever advertised: the dispatch guard is exactly the advertised capability",
+			Req: []string{"neq($r.FormValue(\"grant_type\"), oidc.GrantTypeClientCredentials) || false($exchanger.GrantTypeClientCredentialsSupported()) || called(op.ClientCredentialsExchange(__))"}},
+		{ID: "E1.dispatch.iff.te", Fn: "op.Exchange", P: []string{"w", "r", "exchanger"}, Kind: "ret any", MutOK: []string{"r"}, Why: "served whenever advertised: the dispatch guard is exactly the advertised capability",
+			Req: []string{"neq($r.FormValue(\"grant_type\"), oidc.GrantTypeTokenExchange) || false($exchanger.GrantTypeTokenExchangeSupported()) || called(op.TokenExchange(__))"}},
+		{ID: "E1.dispatch.iff.device", Fn: "op.Exchange", P: []string{"w", "r", "exchanger"}, Kind: "ret any", MutOK: []string{"r"}, Why: "served whenever advertised: the dispatch guard is exactly the advertised capability",
+			Req: []string{"neq($r.FormValue(\"grant_type\"), oidc.GrantTypeDeviceCode) || false($exchanger.GrantTypeDeviceCodeSupported()) || called(op.DeviceAccessToken(__))"}},
+		{ID: "E1.dispatch.iff.jwt", Fn: "op.Exchange", P: []string{"w", "r", "exchanger"}, Kind: "ret any", MutOK: []string{"r"},
+			Req: []string{"neq($r.FormValue(\"grant_type\"), oidc.GrantTypeBearer) || false($exchanger.GrantTypeJWTAuthorizationSupported()) || notis($exchanger, JWTAuthorizationGrantExchanger) || called(op.JWTProfile(__))"}},
 		// capability normal forms
 		{ID: "E7.capability.refresh", Fn: "op.(*Provider).GrantTypeRefreshTokenSupported", P: []string{"o"}, Kind: "ret any", Pat: "ret($o.config.GrantTypeRefreshToken)", Max: 1},
 		{ID: "E7.capability.cc", Fn: "op.(*Provider).GrantTypeClientCredentialsSupported", P: []string{"o"}, Kind: "ret any", Pat: "ret($ok)", Max: 1, Req: []string{"def($ok, $o.storage.(ClientCredentialsStorage), 1)"}},
@@ -94,12 +126,6 @@ func init() {
 		Rules:       []string{"E1"},
 		Run: func(c *Ctx) {
 			RunE1(c, "C19", obs)
-			RunAdvertiseIff(c, "E7.advertise.iff", "op.GrantTypes", map[string]string{"oidc.GrantTypeRefreshToken": "GrantTypeRefreshTokenSupported", "oidc.GrantTypeClientCredentials": "GrantTypeClientCredentialsSupported",
-				"oidc.GrantTypeTokenExchange": "GrantTypeTokenExchangeSupported", "oidc.GrantTypeBearer": "GrantTypeJWTAuthorizationSupported", "oidc.GrantTypeDeviceCode": "GrantTypeDeviceCodeSupported"})
-			RunAdvertiseIff(c, "E7.advertise.iff", "op.CodeChallengeMethods", map[string]string{"oidc.CodeChallengeMethodS256": "CodeMethodS256Supported"})
-			RunAdvertiseIff(c, "E7.advertise.iff", "op.AuthMethodsTokenEndpoint", map[string]string{"oidc.AuthMethodPost": "AuthMethodPostSupported", "oidc.AuthMethodPrivateKeyJWT": "AuthMethodPrivateKeyJWTSupported"})
-			RunAdvertiseIff(c, "E7.advertise.iff", "op.AuthMethodsRevocationEndpoint", map[string]string{"oidc.AuthMethodPost": "AuthMethodPostSupported", "oidc.AuthMethodPrivateKeyJWT": "AuthMethodPrivateKeyJWTSupported"})
-			RunDispatchGuards(c)
 			RunNoFieldWriters(c, "E6.checksession-unwritten", "op", "Endpoints", "CheckSessionIframe", "check_session_iframe is advertised from this field but no route exists: a writer needs a route")
 			RunCallers(c, "E8.issuer.id-token-table", "op.CreateIDToken", []string{"op.CreateTokenResponse", "op.CreateDeviceTokenResponse", "op.CreateTokenExchangeResponse"}, "every ID token is issued with IssuerFromContext(ctx)")
 			RunCallers(c, "E8.issuer.jwt-table", "op.CreateJWT", []string{"op.CreateAccessToken"}, "every JWT access token is issued with IssuerFromContext(ctx)")
